@@ -46,7 +46,8 @@ META = {
                 '(x+0, x-x, 0*x, 1*x, x/1, 0/x, x/x), commutative key normalisation and pool hit — while the graph only grows and the five pools keep the invariant "a key maps to a node denoting the keyed operation". '
                 'Lowering (unit lower): every LoweringState::emit_* is proved, for every complete witness table, to emit ops whose relation (the one the runner is proved to establish, unit run19) '
                 'holds exactly when the node slot carries the value the Expr node denotes (add, both encodings of sub, mul, backwards-mul division, Horner step, bool check, mul-add), '
-                'emit_operations to dispatch every node to the emitter of its own kind with its own operands, emit_constants/publics/privates to bind every leaf to its value/position.',
+                'emit_operations to dispatch every node to the emitter of its own kind with its own operands, emit_constants/publics/privates to bind every leaf to its value/position.'
+            ' Round 15: the all-constant fold of recompose_base_coeffs_to_ext* (slice coef..[const_fold]) is proved to be the value the mul_add chain computes; pure helper methods added to the key types are reasoned about by their own bodies (dual spec/exec emission).',
         'note': 'MulAddFusion::{identify_candidates, filter_valid, apply}, the non-primitive emitters and the CircuitBuilder wrappers above ExpressionBuilder are NOT under contract. '
                 'x/x folds to 1 and 0/x to 0: the division contract is stated for valuations with a non-zero divisor. Built without the debugging/profiling features (R10). '
                 'Trusted: Verus/Z3/vstd, Kani/CBMC, the extractor and its logged rewrites (R1-R12), hashbrown==std HashMap, key model of derived Hash/Eq, '
@@ -57,7 +58,8 @@ META = {
         'text': 'Deductive proof that ALU de-duplication never drops a relation: Deduplicator::run ensures all_covered(input ops, kept ops, final rewrite), and '
                 'theorem_dedup_no_relation_dropped turns that into: ANY assignment satisfying every kept op satisfies every input op read through the rewrite '
                 '(no reference to the honest runner). The side condition (a rewritten slot is mentioned by no kept op) was the open finding C03-alias; since the fix ba1bfe9 the pass '
-                'maintains the set of mentioned slots (Deduplicator::mark_mentioned, under contract) and the condition is a discharged obligation.',
+                'maintains the set of mentioned slots (Deduplicator::mark_mentioned, under contract) and the condition is a discharged obligation.'
+            ' Round 15: CircuitBuilder::connect (unit cbconn) hands every equality of two different targets to the expression builder -- a provenance cache never stands in for the equality.',
         'note': 'Under contract: Deduplicator::{new,detect_duplicate,mark_mentioned,run}, AluKey::{new,with_acc}, WitnessId::resolve, Op::apply_witness_rewrite, and of MulAddFusion the analysis and candidate test: '
                 'def_idx, is_const, uses, is_backwards, insert_def, track_backwards_op, scan_use_counts (= number of relation reads incl. Horner accumulators), scan_defs (last-definer / constant-sticky / '
                 'backwards invariants), try_fuse (a returned candidate is `fusable`: plain product read only by that plain sum, mentioned by no other relation — two hypotheses were needed before the fixes F4/F5). '
@@ -67,7 +69,8 @@ META = {
         'technique': 'Verus contracts on extracted real runner functions + Kani loop-free harnesses inside the real crate under both build profiles',
         'text': 'Complete (loop-free, full-domain) proofs with CBMC that ExecutionContext::get_witness is Ok exactly for an in-range set slot and returns its value, '
                 'and that set_witness errs out of range, never overwrites a different value, and changes at most the addressed slot — checked on the code selected by '
-                'debug assertions ON and OFF, so the optimized profile cannot diverge (it did: F2, fixed).',
+                'debug assertions ON and OFF, so the optimized profile cannot diverge (it did: F2, fixed).'
+            ' Round 15: direction bits read from the witness are validated (unit pbits: resolve_boolean_witness / resolve_mmcs_bit / resolve_mmcs_bit2); private data on a row that cannot consume it is an error (pexec guard slices).',
         'note': 'Functions under contract: ExecutionContext::{get_witness,set_witness} (Kani, both profiles) and CircuitRunner::{set_witness,witness_value,get_witness,'
                 'set_public_inputs,set_private_inputs,execute_alu_op,execute_all} (Verus, all circuits / all inputs: wrong length is an error and changes nothing, a set slot never '
                 'changes value, Ok of execute_all means every Const/Public/ALU op left its relation in the table, a withheld public input is an error). '
@@ -83,7 +86,8 @@ META['C20'] = {
             'select, vanishing_poly_at_point_circuit = the value of the native helper vanishing_poly_at_point_native (both under contract), '
             'selectors_at_point_circuit (both PCS impls) = the four native Lagrange selector formulas of p3-commit. Unit quot: compute_quotient_chunk_products returns, per chunk, '
             '(prod_j Z_j(zeta) / Z_i(zeta)) / prod_{j != i} Z_j(g_i) (the natively pre-computed denominators included, for every number of chunks), compute_quotient_evaluation the sum over chunks of '
-            'coefficient times basis recomposition, and recompose_quotient_from_chunks_circuit their composition — under the stated non-vanishing of the divisors.',
+            'coefficient times basis recomposition, and recompose_quotient_from_chunks_circuit their composition — under the stated non-vanishing of the divisors.'
+            ' Round 15: circuit_exp_by_constant is total (base^0 = 1), no precondition on the exponent.',
     'note': 'Unit periodic: evaluate_one / evaluate_periodic_columns_circuit return, for every column, the Horner value of the lifted coset-inverse-DFT coefficients at point^(2^(log_n - log_period)), i.e. the native '
             'evaluate_periodic_column_at (native constants npow2 / idft / lift uninterpreted), and reject malformed columns. '
             'Assumed (proved elsewhere or trusted): builder arithmetic contracts (value of add/sub/mul/div/mul_add/define_const under one fixed input assignment); '
@@ -96,7 +100,8 @@ META['C05'] = {
     'text': 'Deductive refinement proof: every public method of CircuitChallenger (init, observe, sample, observe_ext, sample_ext, sample_bits, check_pow_witness, clear) '
             'and the internal duplexing step take a state satisfying the representation invariant to one satisfying it, and the abstraction function commutes with the '
             'corresponding native DuplexChallenger operation (p3-challenger 0.6.3, transcribed). Since each method is proved from the invariant alone, induction over the '
-            'history covers every finite interleaving, every WIDTH/RATE and both permutation families — which the 45 transcript tests only sample.',
+            'history covers every finite interleaving, every WIDTH/RATE and both permutation families — which the 45 transcript tests only sample.'
+            " Round 15: duplexing_base / duplexing_base_p1 and the base-field wrappers have value-level contracts (unit bind, witness function last_base_row): one row with the chain flag, the rate limbs and the caller's length tag, outputs adopted in order; the recomposition dispatch and constant fold (unit coef) count for C05 as well.",
     'note': 'Assumed at this layer: the four permutation back ends (duplexing_base/ext/_p1) have the callee contract tracked-state := perm(tracked-state) (base path: tag added by the '
             'table through absorb_len, capacity carried by in-table chaining); builder decomposition/recomposition return the honest coefficient/bit vectors (canonicity is C12); '
             'the native model is a transcription; RATE <= 255 (length tag is a byte). Not decided here: equality of sample_bits with the native as_canonical_u64 & mask (needs C12).',
@@ -110,7 +115,8 @@ META['C15'] = {
             'polynomial length), and no index, subtraction or slice in it can panic for ANY list lengths; CommitPhaseProofStepTargets::new is checked with an arbitrary proof-supplied byte. '
             'The shift/multiply obligations on proof-supplied widths fail and are the recorded finding C15-shift-widths. '
             'Unit openin: the per-matrix loop of open_input returns Ok if and only if there is one opened row per matrix and EVERY opening point of EVERY matrix lists exactly one value per opened column '
-            '(which is the indexing precondition of compute_single_reduced_opening and of the single-chain path, both discharged at their call sites).',
+            '(which is the indexing precondition of compute_single_reduced_opening and of the single-chain path, both discharged at their call sites).'
+            " Round 15: the width of the query index is sum(log_arities) + the verifier's own log_final_poly_len + log_blowup (c15guard..[query_index_width] x2); the uni-STARK verifier rejects claimed degree bits below the ZK adjustment (c15guard..[zk_degree_guard]).",
     'note': 'Kernel: validate_proof_shape (stark.rs), validation prefix of verify_fri_circuit (R13 prefix extraction), CommitPhaseProofStepTargets::new. Not yet under contract: '
             'the per-instance loop of verify_batch_circuit (its unchecked lookup_terminals index was found by reading and fixed: F3), MMCS cap/path split, panics inside p3 dependencies. '
             'Assumed: 64-bit usize, log_arities entries originate from a u8, realistic proof sizes (< 2^32 phases, extension degree < 2^16). Error message strings dropped.',
@@ -126,7 +132,8 @@ META['C12'] = {
             'constraint; on that table semantics recompose_via_npo, the table-or-ALU dispatch of recompose_base_coeffs_to_ext_impl (ALU chain = sum c_i e_i, loop invariant) and the hint path of '
             'decompose_ext_to_base_coeffs are under the contract "in every accepted proof the coefficients recompose to x and are base-field elements". Two hypotheses fail on the unchanged tree and are recorded '
             'findings with forged proofs: the narrow table binds its output to nothing (C12-recompose-table-output-unbound), and without the coefficient table nothing forces base-field coefficients '
-            '(C12-coefficients-not-forced-into-base-field).',
+            '(C12-coefficients-not-forced-into-base-field).'
+            ' Round 15: CircuitBuilder::connect (unit cbconn): a target hinted as a recomposition is tied to its coefficients by the connect, which is never skipped.',
     'note': 'NOT covered: the provenance-cache, constant-fold and select-provenance shortcuts of decompose/recompose; the wide table is modelled optimistically (see the finding text). '
             'Assumed: builder arithmetic/assert contracts; e_i*2^j constant abstracted to basis_pow2(i,j); the link between weighted_sum over the field and bits_value over the integers '
             '(characteristic P, embedding of base elements) is an informal step; 64-bit usize.',
@@ -137,7 +144,8 @@ META['C11'] = {
     'text': 'Deductive proof, for every extension degree D and every operand values, that the extension multiplications the ALU constraints are built from compute multiplication in '
             'F[X]/(X^D - w) (ext_mul_binomial: loop invariant over the D*D partial sums) and in F[X]/(X^5 + X^2 - 1) (ext_mul_quintic_trinomial: existence of the quotient polynomial), '
             'that the runner side of each ALU kind (execute_alu_op) leaves exactly the defining relation in the witness table in forward and backward mode, '
-            'and that AluAir::eval asserts exactly the selector-gated runner relations (the runner\'s Horner step acc*b + c - a is the kernel of every packed form).',
+            'and that AluAir::eval asserts exactly the selector-gated runner relations (the runner\'s Horner step acc*b + c - a is the kernel of every packed form).'
+            ' Round 15: the chaining block of the arity-4 Poseidon2 table (unit p4chain) asserts exactly booleanity, sponge chaining, running-hash placement and the base-four index accumulator.',
     'note': 'The body of AluAir::eval IS under contract (unit alu): for one two-row window, the conjunction of all asserted polynomials equals the conjunction of the selector-gated runner relations '
             '(Add, Mul via the residual selector, BoolCheck, MulAdd, one Horner step to the next row; packed Horner: b^2 column, first two steps folded into the next row, pair legs through the stored '
             'intermediates, odd tail step, single-step fallback), both directions, for every D, lane count and packing K; no index in the row windows can go out of bounds. NOT under contract: '
@@ -182,7 +190,8 @@ META['C08'] = {
             'the native sponge state after i chunks; the permutation row reads exactly the native absorbed state: chunk values, previous rate outputs on a partial non-first chunk, chained capacity). '
             'Unit vbatch: the whole of verify_batch_circuit asserts exactly the native batch-opening relation: level digest i = sponge of the concatenation, in the STABLE descending-height order, of [coefficients | salt] '
             'of the matrices consumed at level i (padded height 2^(maxlog-i)), the path recomputed with index_bits[..path_depth], compared with the cap entry at the little-endian index of index_bits[path_depth..]; '
-            'mismatched batch sizes are rejected.',
+            'mismatched batch sizes are rejected.'
+            ' Round 15: add_hash_base_coeffs_overwrite, the leaf hash of every base-field row, is PROVED (unit hashb) to be the native overwrite-mode sponge over the base stream seen through the packing of D base positions per limb (both the packed and the lift route); it had been an assumed callee.',
     'note': 'Soundness side (unit mbind + one obligation in hash): the values add_mmcs_verify and the leaf hasher hand to a permutation row must be tied to that row by the table; '
             'the table facts are spec predicates transcribed from the AIR/executor text and the obligations FAIL on the unchanged tree: KNOWN FINDINGS C08-leaf-hash-capacity-free, '
             'C08-merkle-row-given-limbs-unbound, C08-merkle-direction-bit-unbound (forged proofs in findings/C08_mmcs_unbound_test.rs). '
@@ -230,7 +239,8 @@ META['C06'] = {
             'and clear are proved against it. The tests only run honest witnesses, which cannot distinguish a pinned target from a free one. '
             'Unit pchain (table side of the in-table capacity chaining): the compact D=1 chaining block of poseidon2-circuit-air and poseidon1-circuit-air eval asserts EXACTLY rate chaining under the per-limb helper, '
             'capacity chaining (+ length tag) under cap_chain_enable*(1-merkle), Merkle left/right placement, the un-gated chain-start pin of the capacity (row 0 included: fix F6) and the index-sum accumulation; '
-            'corollaries: a chained sponge row receives the previous capacity, a chain start has the tag-only capacity (what unit bind assumes of the table).',
+            'corollaries: a chained sponge row receives the previous capacity, a chain start has the tag-only capacity (what unit bind assumes of the table).'
+            " Round 15: the committed length tag of every base-field duplexing is the caller's absorb_len (unit bind, duplexing_base*.ensures[emits_one_row..]).",
     'note': 'Assumed (trusted): which outputs of a permutation row are created on the witness bus (ext_perm_post / base_perm_post); taint rules of builder primitives, recompose and the base-coefficient '
             'decomposition; D=1 path: no foreign sponge-table row between two permutations of one challenger; configuration geometry fits WIDTH/RATE; permutation tables enabled. '
             'KNOWN FINDING C06-ext-capacity-unbound: on the D>1 path the capacity limbs handed back by the wrappers are not exposed, so capacity_outputs_pinned fails (forged proof in findings/).',
@@ -242,7 +252,8 @@ META['C17'] = {
             'is coherent when its proof, its preprocessed data and its configuration all belong to the call. Proved: aggregation_circuit_fingerprint reads all four counters; the aggregation guard '
             'compares the stored fingerprint with this circuit\'s; a filled slot always stores the fingerprint of the circuit its data was prepared for (representation invariant, kept by the fill block); '
             'the fill block stores data of this circuit and configuration; without a cache the slot is untouched. The obligations the property needs at a cache hit -- same circuit, same configuration -- '
-            'are stated where the cached data is used and are the known findings below.',
+            'are stated where the cached data is used and are the known findings below.'
+            ' Round 15: on a cache hit the prover that proves is the one the cached preprocessed data was laid out with (prep_packing tag in `coherent`); keys and prover resolve lane counts alike (order.lane_resolution).',
     'note': 'Layer-chaining half of C17 (a layer output is a valid input of the next layer, for every chain) is a whole-pipeline statement about prover and verifier: not expressible as a function contract here. '
             'All callees of the cache blocks are ASSUMED stubs that only say whose data they return; `coherent` is the meaning given to the tags. '
             'KNOWN FINDINGS (forged runs in findings/C17_cache_reuse_test.rs): C17-aggregation-fingerprint-collision, C17-aggregation-config-not-keyed, C17-next-layer-unguarded.',
@@ -256,7 +267,8 @@ META['C10'] = {
             'operations with one b index; Horner entries in lane 0 of consecutive rows continue the same run of operations, a separator row precedes every run and row 0 starts with a separator. '
             'The fill_row closure (hoisted to a function) completes the current row with the next pending ordinary operations, then separators. reduce_lanes_if_dummy returns 1 lane for dummy tables. '
             'Unit tracegen: the scheduled branch of AluAir::trace_to_matrix never indexes outside the value vector or the runner trace for any schedule (this obligation failed before fix F7: a short packed group ending '
-            'the op list), and the accumulator seeding a packed Horner row is the previous row lane-0 out (zero after a separator and on row 0), as the constraints read it.',
+            'the op list), and the accumulator seeding a packed Horner row is the previous row lane-0 out (zero after a separator and on row 0), as the constraints read it.'
+            ' Round 15: the declared degree of a primitive table is the log of the height its AIR pads to (unit degpad, every row count incl. 0); keys and prover resolve the recompose/coeff lane count alike (relational slice order.lane_resolution); a free slot first read as b gets its creator in that row (unit prep).',
     'note': 'KERNEL: the scheduling mechanism named by the property. The statement itself (trace generation, proving and native verification succeed for every buildable circuit) spans the prover and the '
             'proof system and is not a function contract. Assumed: horner_ops_share_b_idx (iterator chain) says all listed operations read one b index; iter().any / saturating_sub / min / is_multiple_of / '
             'mem::take helper semantics; field elements opaque with decidable equality; preprocessed lane view generated from the real struct; that prep and prove call reduce_lanes_if_dummy with the same arguments is not checked.',
